@@ -16,7 +16,7 @@ Theorem submit_array_rejected_no_effect s jobsel ids entries rq prio cl tlim mf 
   step s (OpSubmit jobsel ids entries rq prio cl tlim mf) = Ok (s', outs) ->
   existsb is_submit_err outs = true -> s' = s.
 Proof.
-  cbn [step]. intros H He. unfold handle_submit_array in H.
+  cbn [step]. intros H He. destruct (bad_submit_lengths _ _); [inversion H; reflexivity|]. unfold handle_submit_array in H.
   match type of H with (match ?x with Some _ => _ | None => _ end) = _ => destruct x end; [inversion H; reflexivity|].
   apply bind_ok in H. destruct H as ([acc s1] & Hr & H).
   destruct acc as [[[jid is_new] ids']|].
@@ -65,7 +65,7 @@ Theorem submit_graph_rejected_no_effect s jobsel rqs ts mf s' outs :
   step s (OpSubmitG jobsel rqs ts mf) = Ok (s', outs) ->
   existsb is_submit_ok outs = false -> s' = s.
 Proof.
-  cbn [step]. intros H He. destruct (bad_graph_rq _ _); [inversion H; reflexivity|]. unfold handle_submit_graph in H.
+  cbn [step]. intros H He. destruct (bad_graph_rq _ _); [inversion H; reflexivity|]. destruct (dead_dep _ _ _); [inversion H; reflexivity|]. unfold handle_submit_graph in H.
   apply bind_ok in H. destruct H as (v1 & _ & H).
   match type of H with (match ?x with Some _ => _ | None => _ end) = _ => destruct x end; [inversion H; reflexivity|].
   apply bind_ok in H. destruct H as ([acc s1] & Hr & H).
